@@ -73,9 +73,9 @@ fn err_name(dbg: &str) -> String {
 
 type Alt<'a> = Option<(u64, &'a Ground)>;
 
-/// Coordinates <= this are not probed (used for fully self-consistent forged
-/// entries: replaying only up to the forged entry makes it the chain tip, for
-/// which no anchor exists; the next entry's parent link is the anchor).
+// Coordinates below this are not probed (used for fully self-consistent forged
+// entries: replaying only up to the forged entry makes it the chain tip, for
+// which no anchor exists; the next entry's parent link is the anchor).
 thread_local! {
     static MIN_TARGET: std::cell::Cell<u64> = const { std::cell::Cell::new(0) };
 }
